@@ -164,6 +164,8 @@ class Gen:
         for p, herm in sorted(self.products.items()):
             lines.append(f'    with "{p}":')
             lines.append("        hermitian" if herm else "        pass")
+        if self.products and r.random() < 0.15:
+            outs = outs + [r.choice(sorted(self.products))]  # a declared product among the outputs
         lines.append("    return " + ", ".join('"%s"' % o for o in outs) + ("," if len(outs) == 1 and r.random() < 0.0 else ""))
         return "\n".join(lines) + "\n", names, sorted(self.products), inputs
 
@@ -419,13 +421,15 @@ class Prop:
         w["derived"] = False
         w["deg"] = False
         nb = len(w["sizes"])
-        ops = self._schedule(r, ["H_tilde", "U", "U†"], ["H_tilde", "U", "U†"], nb, 1, 3, "quick")[:25]
+        ninf = w["npert"]
+        cap = 3 if ninf == 1 else 2
+        ops = self._schedule(r, ["H_tilde", "U", "U†"], ["H_tilde", "U", "U†"], nb, ninf, cap, "quick")[:25]
         # flag combinations to compare with: every flag the library sets may be kept or withdrawn (a withdrawn promise is
         # always legal); the all-withdrawn combination is always among them
         variants = [[False, [False] * nb]]
         for _ in range(r.choice([0, 1, 2])):
             variants.append([r.random() < 0.6, [r.random() < 0.5 for _ in range(nb)]])
-        return {"family": "F", "world": w, "nb": nb, "ninf": 1, "cap": 3, "ops": ops, "variants": variants}
+        return {"family": "F", "world": w, "nb": nb, "ninf": ninf, "cap": cap, "ops": ops, "variants": variants}
 
     def _execute_F(self, case):
         from pymablock import algorithms
